@@ -351,11 +351,11 @@ def remote_cfg(c, entity_id) -> RemoteEntityCfg:
 
 
 def dest_path_requested(c) -> str:
-    return DST_DIR if c["shape"] == "dir" else DST_FILE
+    return DST_DIR if c["shape"] in ("dir", "dir_existing") else DST_FILE
 
 
 def dest_path_resolved(c) -> str:
-    return os.path.join(DST_DIR, os.path.basename(SRC_PATH)) if c["shape"] == "dir" else DST_FILE
+    return os.path.join(DST_DIR, os.path.basename(SRC_PATH)) if c["shape"] in ("dir", "dir_existing") else DST_FILE
 
 
 def prepare_files(c, vfs_s=None, vfs_d=None):
@@ -374,10 +374,15 @@ def prepare_files(c, vfs_s=None, vfs_d=None):
         if c["shape"] == "existing":
             with open(DST_FILE, "wb") as f:
                 f.write(b"\xee" * (c["size"] + 3))
+        elif c["shape"] == "dir_existing":  # directory destination that already holds a longer file of that name
+            with open(dest_path_resolved(c), "wb") as f:
+                f.write(b"\xdd" * (c["size"] + 3))
     else:
         vfs_d.mkdirs("out")
         if c["shape"] == "existing":
             vfs_d.put(DST_FILE, b"\xee" * (c["size"] + 3))
+        elif c["shape"] == "dir_existing":
+            vfs_d.put(dest_path_resolved(c), b"\xdd" * (c["size"] + 3))
     return data
 
 
